@@ -4,6 +4,7 @@ import (
 	"bytes"
 	stdjson "encoding/json"
 	"fmt"
+	"io"
 	"reflect"
 	"strings"
 	"unicode/utf8"
@@ -229,6 +230,60 @@ func runC17(c *Ctx) {
 	for _, l := range good {
 		c17DecodeOracle(c, l)
 	}
+	// every position of short escape-bearing literals placed on the 512-byte refill boundary
+	nb := 0
+	for _, l := range good {
+		if !strings.Contains(l, `\`) || len(l) > 26 {
+			continue
+		}
+		if !c.Thorough() && nb >= 400 {
+			break
+		}
+		nb++
+		lit := `"` + l + `"`
+		var want string
+		if err := stdjson.Unmarshal([]byte(lit), &want); err != nil || !utf8.ValidString(l) {
+			continue
+		}
+		for pos := 0; pos <= len(lit); pos++ {
+			for _, edge := range []int{511, 512, 1023} {
+				pad := edge - pos
+				if pad < 0 {
+					continue
+				}
+				doc := strings.Repeat(" ", pad) + lit
+				var s string
+				err := json.NewDecoder(strings.NewReader(doc)).Decode(&s)
+				c.Oracle("dec/value/boundary", fmt.Sprintf("pad=%d %s", pad, lit), fmt.Sprintf("%q err=%v", s, err), fmt.Sprintf("%q", want), err == nil && s == want, "")
+				var v interface{}
+				err = json.NewDecoder(strings.NewReader(doc)).Decode(&v)
+				vs, _ := v.(string)
+				c.Oracle("dec/iface/boundary", fmt.Sprintf("pad=%d %s", pad, lit), fmt.Sprintf("%q err=%v", vs, err), fmt.Sprintf("%q", want), err == nil && vs == want, "")
+			}
+		}
+	}
+}
+
+// chunkReader delivers data in pieces of at most size bytes.
+type chunkReader struct {
+	data []byte
+	size int
+}
+
+func (r *chunkReader) Read(p []byte) (int, error) {
+	if len(r.data) == 0 {
+		return 0, io.EOF
+	}
+	n := r.size
+	if n > len(r.data) {
+		n = len(r.data)
+	}
+	if n > len(p) {
+		n = len(p)
+	}
+	copy(p, r.data[:n])
+	r.data = r.data[n:]
+	return n, nil
 }
 
 func c17Coerce(s string) string { return string([]rune(s)) }
@@ -314,17 +369,23 @@ func c17DecodeOracle(c *Ctx, body string) {
 		A string `json:",string"`
 	}
 	quoted, _ := stdjson.Marshal(lit) // the literal itself as a JSON string: payload for ,string
-	for _, stream := range []bool{false, true} {
-		mode := "buf"
-		if stream {
-			mode = "stream"
-		}
+	// modes: buffer; stream delivered whole, one byte at a time, and in pieces of a size derived
+	// from the literal (2..9), so that every escape is cut by a refill somewhere in the run
+	modes := []string{"buf", "stream", "stream1", "streamk"}
+	for _, mode := range modes {
+		stream := mode != "buf"
 		dec := func(doc string, dst interface{}) error {
-			if stream {
+			switch mode {
+			case "stream":
 				return json.NewDecoder(strings.NewReader(doc)).Decode(dst)
+			case "stream1":
+				return json.NewDecoder(&chunkReader{data: []byte(doc), size: 1}).Decode(dst)
+			case "streamk":
+				return json.NewDecoder(&chunkReader{data: []byte(doc), size: 2 + len(doc)%8}).Decode(dst)
 			}
 			return json.Unmarshal([]byte(doc), dst)
 		}
+		_ = stream
 		report := func(pos, doc, got string, err error, wantS string) {
 			ok := err == nil && got == wantS
 			c.Oracle("dec/"+pos+"/"+mode, doc, fmt.Sprintf("%q err=%v", got, err), fmt.Sprintf("%q", wantS), ok, "")
